@@ -30,8 +30,10 @@ fn c30_history(seed: u64) {
     let mut rng = Rng::new(rng::mix(&[seed, 0x30]));
     let n = rng.range(8, 40);
     let mut pool = c30ops::Pool::new();
+    let mut cfg = c30ops::GenCfg::draw(&mut rng);
+    cfg.allow_clone_panic = true;
     for _ in 0..n {
-        let op = c30ops::gen_op(&mut rng, true);
+        let op = c30ops::gen_op_cfg(&mut rng, &cfg);
         let r = if rng.chance(1, 4) {
             // the value crosses to another thread for this operation (Send)
             std::thread::scope(|s| s.spawn(|| pool.apply(&op).and_then(|()| pool.check())).join().unwrap())
